@@ -456,13 +456,16 @@ impl H {
 
     async fn client(&mut self, m: FromClientMessage) -> Option<ToClientMessage> {
         self.req_tx.unbounded_send(Ok(m)).ok()?;
-        for i in 0..4000 {
+        // ForgetJob drops the jobs on a blocking thread: give it real time (up to ~40 s on a loaded
+        // machine; the loop ends as soon as the response is there)
+        for i in 0..24000 {
             tokio::task::yield_now().await;
             if let Ok(Some(r)) = self.resp_rx.try_next() {
                 return Some(r);
             }
-            if i > 100 {
-                // ForgetJob drops the jobs on a blocking thread: give it real time
+            if i > 4000 {
+                std::thread::sleep(Duration::from_millis(2));
+            } else if i > 100 {
                 std::thread::sleep(Duration::from_micros(200));
             }
         }
@@ -1078,6 +1081,49 @@ async fn gen_trace(id: u64, rng: &mut Rng, tier: &str) -> String {
     let _ = next_job;
     if !h.dead {
         h.exec(&Op::FlushDone).await;
+    }
+    // drain phase (half of the traces): no more faults or requests; deliver every message, run the
+    // scheduler whenever it asks, let every started task end successfully - until the system is at
+    // rest.  The model runner then checks that nothing is left in an in-between state (C02).
+    if !h.dead && rng.chance(1, 2) {
+        for _ in 0..600 {
+            h.hq.sim.pump();
+            let mut wids: Vec<u32> = h.hq.sim.workers.keys().map(|w| w.as_num()).collect();
+            wids.sort();
+            let mut next: Option<Op> = None;
+            for w in &wids {
+                let wid = WorkerId::new(*w);
+                if h.hq.sim.down_len(wid) > 0 {
+                    next = Some(Op::DDown { w: *w });
+                    break;
+                }
+                if h.hq.sim.up_len(wid) > 0 {
+                    next = Some(Op::DUp { w: *w });
+                    break;
+                }
+            }
+            if next.is_none() && h.hq.sim.scheduling_flag() {
+                next = Some(Op::Sched);
+            }
+            if next.is_none() {
+                for w in &wids {
+                    if let Some((t, stop)) = h.hq.sim.pending_tasks(WorkerId::new(*w)).into_iter().next() {
+                        next = Some(Op::End { w: *w, t, how: if stop.is_some() { 2 } else { 0 } });
+                        break;
+                    }
+                }
+            }
+            match next {
+                Some(o) => {
+                    if !h.exec(&o).await || h.dead {
+                        break;
+                    }
+                }
+                None => break,
+            }
+        }
+    }
+    if !h.dead {
         h.exec(&Op::WaitCheck).await;
     }
     writeln!(h.out, "END").unwrap();
